@@ -56,7 +56,7 @@ class Oracle:
                 w.violate('b:finished-after-kill', features(w, first, end='FINISHED'), None)
             elif state == ProcessState.KILLED:
                 step_failed = any(isinstance(e, programs.StepError) for e in raised_after)
-                if step_failed and first['op'] == 'kill' and not first['origin'].startswith('listener') \
+                if step_failed and first['op'] in ('kill', 'cancel') and not first['origin'].startswith('listener') \
                         and step_raised_after(w, first):
                     w.violate('b:step-failure-swallowed', features(w, first, end='KILLED'), None)
         # (c) returned values resolve True exactly when the process ended KILLED
@@ -333,11 +333,7 @@ def run_processes(tier: str, seed: int, workers: Any) -> Dict[str, Any]:
         bounds={'K': budget['K'], 'J': budget['J'], 'program_len': 3}, describe=lambda u: programs.describe(u[0]))
 
 
-def is_wc_unit(unit: Any) -> bool:
-    try:
-        return unit[0][0][0][0] in ('gate', 'child')
-    except Exception:  # noqa: BLE001
-        return False
+from ._common import is_wc_unit  # noqa: E402
 
 
 def replay(doc: Dict[str, Any]) -> List[Dict[str, Any]]:
